@@ -124,6 +124,9 @@ pub fn run(ctx: &Ctx) -> Report {
             break;
         }
     }
+    if r.violations.is_empty() {
+        super::c03_twohop::run_part(ctx, &mut r);
+    }
     let s = stats.lock().unwrap().clone();
     r.set("successful_swaps_checked", s.swaps_ok);
     r.set("threshold_reexecutions", s.threshold_reruns);
@@ -133,11 +136,14 @@ pub fn run(ctx: &Ctx) -> Report {
     r.guard("must_fail_limit_variants", s.must_fail_variants);
     r.set("exhaustive", false);
     r.assume("svm-lite faithfully replaces the validator (DESIGN §2.1); balances are moved by the real SPL Token / Token-2022 processors");
-    r.assume("two-hop swaps are covered by C17's differential (two-hop == two single swaps) plus this check on single swaps");
+    r.assume("two-hop swaps: every variant in the states of a small three-pool exploration (c03_twohop); the full two-hop == two-single-swaps differential is C17");
     r
 }
 
 pub fn replay(case: &Value) -> Result<(), String> {
+    if let Some(r) = super::c03_twohop::replay_part(case) {
+        return r;
+    }
     let ws = worlds(true);
     let name = case["world"].as_str().ok_or("world")?;
     let b = ws.iter().find(|b| b.name == name).ok_or("unknown world")?;
